@@ -879,6 +879,10 @@ class Normaliser:
                 return [("return", t)]
             if (ea[0][1], eb[0][1]) == (Fa, T):
                 return [("return", ("not", t))]
+        # a tree of comparisons of one evidently integer value with integer constants is the chain over its breakpoints
+        chain = _int_case_chain(t, tuple(ea), tuple(eb))
+        if chain is not None:
+            return chain
         # an if nested alone in an arm of an if without other arm is one if on the conjunction:  if A: (if B: X)  ==  if A and B: X
         #   more generally, with R the other arm:  if A: (if B: X else: R) else: R  ==  if A and B: X else: R
         for outer_pos, arm, other in ((True, ea, eb), (False, eb, ea)):
@@ -2462,6 +2466,103 @@ def normal_form(fn, consts=None, helpers=None, methods=None):
     eff, _ = nz.block(_body(fn), {}, ())
     is_gen = any(isinstance(x, (ast.Yield, ast.YieldFrom)) for x in ast.walk(fn))
     return (sig, _renumber(_prune_evals(_drop_dead_binds(tuple(strip_tail(eff, "return")) if not is_gen else tuple(eff)))))
+
+
+def _int_const(x):
+    if isinstance(x, tuple) and len(x) == 4 and x[0] == "prod" and x[2] == () and isinstance(x[1], Fraction) and x[1].denominator == 1:
+        return int(x[1])
+    return None
+
+
+def _int_subject(x):
+    """(is an evidently integer value, is evidently non-negative) for a form"""
+    if isinstance(x, tuple) and len(x) == 4 and x[0] == "call":
+        f = x[1]
+        if f == ("n", "len") and len(x[2]) == 1:
+            return True, True
+        if f == ("n", "int") and len(x[2]) == 1:
+            return True, False
+        if isinstance(f, tuple) and len(f) == 3 and f[0] == "." and f[2] in ("count", "index"):
+            return True, True
+    return False, False
+
+
+def _int_test(t):
+    """(subject form, predicate on an int) for a positive test form that compares an evidently integer value with an integer constant"""
+    if not (isinstance(t, tuple) and len(t) == 4 and t[0] == "cmp" and t[1] in ("Lt", "Eq")):
+        return None
+    a, b = t[2], t[3]
+    ka, kb = _int_const(a), _int_const(b)
+    if kb is not None and ka is None and _int_subject(a)[0]:
+        return (a, (lambda v, k=kb: v < k)) if t[1] == "Lt" else (a, (lambda v, k=kb: v == k)), kb
+    if ka is not None and kb is None and _int_subject(b)[0]:
+        return (b, (lambda v, k=ka: k < v)) if t[1] == "Lt" else (b, (lambda v, k=ka: v == k)), ka
+    return None
+
+
+def _int_case_chain(t, ea, eb):
+    """`if`-effects for a decision tree that tests one evidently integer subject against integer constants only (at least two tests): the canonical
+    chain `if X < b1: L0 elif X < b2: L1 ... else: Lk` over the breakpoints at which the outcome changes (for a non-negative subject, values below 0 do
+    not exist and `X < 1` is written `X == 0` as elsewhere); None when the tree is not of that kind"""
+    first = _int_test(t)
+    if first is None:
+        return None
+    subject = first[0][0]
+    consts = []
+    n_tests = [0]
+
+    def outcome(tt, a, b, v):
+        """leaf (effects tuple) reached for the subject value v"""
+        it = _int_test(tt)
+        arm = a if it[0][1](v) else b
+        if len(arm) == 1 and arm[0][0] == "if" and len(arm[0]) == 4:
+            it2 = _int_test(arm[0][1])
+            if it2 is not None and it2[0][0] == subject:
+                return outcome(arm[0][1], arm[0][2], arm[0][3], v)
+        return arm
+
+    def collect(tt, a, b):
+        it = _int_test(tt)
+        consts.append(it[1])
+        n_tests[0] += 1
+        for arm in (a, b):
+            if len(arm) == 1 and arm[0][0] == "if" and len(arm[0]) == 4:
+                it2 = _int_test(arm[0][1])
+                if it2 is not None and it2[0][0] == subject:
+                    collect(arm[0][1], arm[0][2], arm[0][3])
+    collect(t, ea, eb)
+    if n_tests[0] < 2:
+        return None
+    nonneg = _int_subject(subject)[1]
+    points = sorted({k + d for k in consts for d in (0, 1)})
+    lo = 0 if nonneg else points[0] - 1
+    reps = sorted({lo} | {p_ for p_ in points if p_ > lo})
+    leaves = [(r, outcome(t, ea, eb, r)) for r in reps]
+    # merge neighbouring cells with the same outcome: cell i starts at leaves[i][0]
+    cells = []
+    for r, leaf in leaves:
+        if cells and cells[-1][1] == leaf:
+            continue
+        cells.append((r, leaf))
+    if len(cells) == 1:
+        return list(cells[0][1])
+
+    def konst(k):
+        return ("prod", Fraction(k), (), False)
+
+    def build(i):
+        if i == len(cells) - 1:
+            return cells[i][1]
+        bound = cells[i + 1][0]
+        if nonneg and bound == 1:
+            l, r = subject, konst(0)
+            if repr(l) > repr(r):
+                l, r = r, l
+            test = ("cmp", "Eq", l, r)
+        else:
+            test = ("cmp", "Lt", subject, konst(bound))
+        return (("if", test, tuple(cells[i][1]), tuple(build(i + 1))),)
+    return list(build(0))
 
 
 def _is_const_form(x) -> bool:
